@@ -443,6 +443,8 @@ func runC12(c *eng.Ctx) {
 	if f := r4.NeedFunc(pkgExec + ".(*Executor).RunAndLogLines"); f != nil {
 		checkErrSites(r4, f, func(o types.Object) bool { return nameOf(o) == "Run" }, nil, nil)
 	}
+	// a malformed metrics file fails the execution: the stream is decoded to its end
+	streamDecodedToEOF(c, r4, pkgMOp+".MetricOperationsFromReader")
 
 	// R5 who runs hooks
 	r5 := c.Rule("C12.R5", "C:who-calls", "Hook.Run is called only from handleRunHook; the hook executable is started for --config only from loadHook", 2)
